@@ -108,7 +108,9 @@ func oracleC04(w *world.World, s *coop.Sched, final bool) *Finding {
 		key := podKeyInDB(w, b.PodKey)
 		for _, ip := range b.IPs {
 			m := mem[ip]
-			if !m.Alloc || m.Key != key {
+			// (while an old instance overlaps a new one, the new instance's tables may lag behind the store: what the property
+			// protects is the assignment itself, i.e. the store clause below and, after the overlap, both)
+			if (!m.Alloc || m.Key != key) && !w.TwoInstances {
 				return &Finding{Clause: "live-pod-ip-lost-in-memory", Detail: fmt.Sprintf("pod %s(uid %s) bound with %s but memory says {%v}; store log %v",
 					b.PodKey, b.UID, ip, m, tail(w.StoreLog, 4))}
 			}
